@@ -534,6 +534,7 @@ type ModItem struct {
 	After Expr // addresses allocated after this object
 	CallerFresh bool // (assumed, per call site) only memory allocated since the caller's entry
 	Elems Expr // for elems(slice)
+	MapOf Expr // for mapof(m): the domain, length and values of that map
 }
 
 type FuncContract struct {
@@ -848,6 +849,16 @@ func (cs *Contracts) parseFile(path, pkg string) error {
 						}
 						mi.At = e
 						part = strings.TrimSpace(part[:i])
+					}
+					if strings.HasPrefix(part, "mapof(") && strings.HasSuffix(part, ")") {
+						e, err := parseExpr(part[6 : len(part)-1])
+						if err != nil {
+							return fail(err)
+						}
+						mi.MapOf = e
+						mi.Comps = []string{"mapof"}
+						c.Mods = append(c.Mods, mi)
+						continue
 					}
 					if strings.HasPrefix(part, "elems(") && strings.HasSuffix(part, ")") {
 						e, err := parseExpr(part[6 : len(part)-1])
